@@ -716,6 +716,7 @@ func (e *Exec) zz(name string, args []Value, fn *ssa.Function) Value {
 	case "Assert":
 		c := args[0].(*Term)
 		label, _ := e.concreteString(args[1].(*Str))
+		e.stats.Asserts++
 		if c.IsTrue() {
 			return nil
 		}
